@@ -1,8 +1,8 @@
-import Afkak.Producer
-import Afkak.Monitor.ProducerTrace
-/-! Accounting invariant: the waiting counters are the sums over the queue. -/
+import AfkakProofs.Producer.Frame
+import Afkak.Monitor.C19
+/-! C19 accounting: the waiting counters are the sums over the queue, in every reachable state. -/
 namespace Afkak.Producer
-open Afkak.Consts
+open Afkak.Consts Afkak.Monitor.ProducerTrace Afkak.Monitor.C19
 
 def qMsgs (q : List Req) : Int := (q.map (fun r => (r.msgs.length : Int))).sum
 def qBytes (q : List Req) : Int := (q.map (fun r => msgBytes r.msgs)).sum
@@ -10,31 +10,192 @@ def qBytes (q : List Req) : Int := (q.map (fun r => msgBytes r.msgs)).sum
 /-- the counters agree with the queue -/
 def AccInv (st : St) : Prop := st.msgCount = qMsgs st.queue ∧ st.byteCount = qBytes st.queue
 
-/-- `f` leaves queue and counters alone -/
+/-- queue and counters untouched -/
 def SameQ (a b : St) : Prop := b.queue = a.queue ∧ b.msgCount = a.msgCount ∧ b.byteCount = a.byteCount
 
-theorem SameQ.refl (a : St) : SameQ a a := ⟨rfl, rfl, rfl⟩
+theorem SameQ.rfl' (a : St) : SameQ a a := ⟨rfl, rfl, rfl⟩
 theorem SameQ.trans {a b c : St} (h1 : SameQ a b) (h2 : SameQ b c) : SameQ a c := by
   unfold SameQ at *; grind
 theorem SameQ.acc {a b : St} (h : SameQ a b) (ha : AccInv a) : AccInv b := by
   unfold SameQ AccInv at *; grind
 
-theorem pickPartition_sameQ (cfg : Cfg) (st : St) (t : Topic) (k : Option (List UInt8)) :
-    SameQ st (pickPartition cfg st t k).1 := by
-  unfold pickPartition setPartitioner SameQ
-  split <;> (try split) <;> (try split) <;> (try split) <;> simp
-
-theorem lookupHead_sameQ (cfg : Cfg) (st : St) (r : Req) : SameQ st (lookupHead cfg st r).1 := by
-  unfold lookupHead
-  split
-  · split <;> simp [SameQ]
-  · exact pickPartition_sameQ cfg st r.topic r.key
+/-- a handler either leaves queue and counters alone or leaves them consistent (it dispatched) -/
+def AccOk (a b : St) : Prop := AccInv a → AccInv b
+theorem AccOk.trans {a b c : St} (h1 : AccOk a b) (h2 : AccOk b c) : AccOk a c := fun h => h2 (h1 h)
+theorem SameQ.ok {a b : St} (h : SameQ a b) : AccOk a b := h.acc
 
 theorem startLookups_sameQ (cfg : Cfg) (st : St) (rs : List Req) : SameQ st (startLookups cfg st rs).1 := by
-  induction rs generalizing st with
-  | nil => exact SameQ.refl st
+  rw [startLookups_frame]; exact ⟨rfl, rfl, rfl⟩
+theorem lookupHead_sameQ (cfg : Cfg) (st : St) (r : Req) : SameQ st (lookupHead cfg st r).1 := by
+  rw [lookupHead_frame]; exact ⟨rfl, rfl, rfl⟩
+theorem metaContinue_sameQ (cfg : Cfg) (st : St) (r : Req) (res : MetaRes) : SameQ st (metaContinue cfg st r res).1 := by
+  rw [metaContinue_frame]; exact ⟨rfl, rfl, rfl⟩
+theorem sendRequests_sameQ (st : St) (ls : List Lookup) : SameQ st (sendRequests st ls).1 := by
+  rw [sendRequests_frame]; exact ⟨rfl, rfl, rfl⟩
+theorem handleSendResponse_sameQ (cfg : Cfg) (st : St) (b : Batch) (r : ProdRes) :
+    SameQ st (handleSendResponse cfg st b r).1 := by
+  rw [handleSendResponse_frame]; exact ⟨rfl, rfl, rfl⟩
+theorem deliverAll_sameQ (st : St) (b : Batch) (o : Outcome) : SameQ st (deliverAll st b o).1 := by
+  rw [deliverAll_frame]; exact ⟨rfl, rfl, rfl⟩
+
+theorem dispatch_acc (cfg : Cfg) (st : St) : AccInv (dispatch cfg st).1 := by
+  have h0 : AccInv { st with queue := [], msgCount := 0, byteCount := 0 } := by simp [AccInv, qMsgs, qBytes]
+  have h1 := (startLookups_sameQ cfg { st with queue := [], msgCount := 0, byteCount := 0 } st.queue).acc h0
+  simp only [dispatch]
+  split
+  · have h2 : AccInv (sendRequests { (startLookups cfg { st with queue := [], msgCount := 0, byteCount := 0 } st.queue).1 with
+        phase := .lookups (startLookups cfg { st with queue := [], msgCount := 0, byteCount := 0 } st.queue).2.1 }
+        (startLookups cfg { st with queue := [], msgCount := 0, byteCount := 0 } st.queue).2.1).1 :=
+      (sendRequests_sameQ _ _).acc h1
+    split
+    · exact h2
+    · exact h2
+  · exact h1
+
+theorem sendBatch_ok (cfg : Cfg) (st : St) : AccOk st (sendBatch cfg st).1 := by
+  simp only [sendBatch]; split
+  · exact fun _ => dispatch_acc cfg st
+  · exact id
+
+theorem checkSendBatch_ok (cfg : Cfg) (st : St) : AccOk st (checkSendBatch cfg st).1 := by
+  simp only [checkSendBatch]; split
+  · exact sendBatch_ok cfg st
+  · exact id
+
+theorem completeBatch_ok (cfg : Cfg) (st : St) : AccOk st (completeBatch cfg st).1 := by
+  simp only [completeBatch]
+  exact AccOk.trans (b := resetBatch cfg st) (SameQ.ok ⟨rfl, rfl, rfl⟩) (checkSendBatch_ok cfg _)
+
+theorem finish_ok (cfg : Cfg) (st : St) (r : St × List Ob × Bool) (h : AccOk st r.1) : AccOk st (finish cfg r).1 := by
+  simp only [finish]; split
+  · exact h.trans (completeBatch_ok cfg r.1)
+  · exact h
+
+theorem afterLookups_ok (cfg : Cfg) (st : St) (ls : List Lookup) (obs : List Ob) :
+    AccOk st (afterLookups cfg st ls obs).1 := by
+  simp only [afterLookups]
+  split
+  · have h1 : AccOk st (sendRequests { st with phase := .lookups ls } ls).1 :=
+      AccOk.trans (b := { st with phase := .lookups ls }) (SameQ.ok ⟨rfl, rfl, rfl⟩) (sendRequests_sameQ _ ls).ok
+    split
+    · exact h1.trans (completeBatch_ok cfg _)
+    · exact h1
+  · exact SameQ.ok ⟨rfl, rfl, rfl⟩
+
+theorem sum_filter_split (q : List Req) (sid : Sid) (f : Req → Int) :
+    (q.map f).sum = ((q.filter (·.sid ≠ sid)).map f).sum + ((q.filter (·.sid = sid)).map f).sum := by
+  induction q with
+  | nil => simp
   | cons r rest ih =>
-    simp only [startLookups]
-    exact (lookupHead_sameQ cfg st r).trans (ih _)
+    by_cases h : r.sid = sid <;> simp [h, ih] <;> omega
+
+theorem cancelSend_ok (st : St) (sid : Sid) : AccOk st (cancelSend st sid).1 := by
+  simp only [cancelSend]
+  split
+  · split
+    · intro h
+      obtain ⟨h1, h2⟩ := h
+      have e1 := sum_filter_split st.queue sid (fun r => (r.msgs.length : Int))
+      have e2 := sum_filter_split st.queue sid (fun r => msgBytes r.msgs)
+      simp only [AccInv, qMsgs, qBytes] at *
+      constructor <;> omega
+    · exact SameQ.ok ⟨rfl, rfl, rfl⟩
+  · exact id
+
+theorem cancelAll_ok (st : St) (l : List Sid) : AccOk st (cancelAll st l).1 := by
+  induction l generalizing st with
+  | nil => exact id
+  | cons s rest ih => simp only [cancelAll]; exact (cancelSend_ok st s).trans (ih _)
+
+theorem zombieTimer_ok (st : St) (tid : Tid) : AccOk st (zombieTimer st tid).1 := by
+  simp only [zombieTimer]; split
+  · exact SameQ.ok ⟨rfl, rfl, rfl⟩
+  · exact id
+
+theorem timerLookups_ok (cfg : Cfg) (st : St) (ls : List Lookup) (tid : Tid) : AccOk st (timerLookups cfg st ls tid).1 := by
+  simp only [timerLookups]; split
+  · exact (lookupHead_sameQ cfg st _).ok.trans (afterLookups_ok cfg _ _ _)
+  · exact zombieTimer_ok st tid
+
+theorem metaDoneLookups_ok (cfg : Cfg) (st : St) (ls : List Lookup) (rid : Rid) (res : MetaRes) :
+    AccOk st (metaDoneLookups cfg st ls rid res).1 := by
+  simp only [metaDoneLookups]; split
+  · exact (metaContinue_sameQ cfg st _ res).ok.trans (afterLookups_ok cfg _ _ _)
+  · exact id
+
+theorem cancelLookups_ok (cfg : Cfg) (st : St) (ls : List Lookup) (mouts : List (Rid × MetaRes)) :
+    AccOk st (cancelLookups cfg st ls mouts).1 := by
+  simp only [cancelLookups]
+  exact AccOk.trans (b := { st with zombies := st.zombies ++ (ls.map (cancelLookup mouts)).flatMap (·.2.1) })
+    (SameQ.ok ⟨rfl, rfl, rfl⟩) (afterLookups_ok cfg _ _ _)
+
+theorem cancelSending_ok (cfg : Cfg) (st : St) (wipe : Bool) (rid : Rid) (b : Batch) (pout : Option ProdRes) :
+    AccOk st (cancelSending cfg st wipe rid b pout).1 := by
+  cases pout with
+  | none => exact id
+  | some r =>
+    simp only [cancelSending]
+    cases wipe with
+    | false => exact finish_ok cfg st _ (handleSendResponse_sameQ cfg st b r).ok
+    | true =>
+      exact AccOk.trans (b := { st with tmeta := [] }) (SameQ.ok ⟨rfl, rfl, rfl⟩)
+        (finish_ok cfg { st with tmeta := [] } _ (handleSendResponse_sameQ cfg _ b r).ok)
+
+theorem cancelRetryWait_ok (cfg : Cfg) (st : St) (tid : Tid) (b : Batch) : AccOk st (cancelRetryWait cfg st tid b).1 := by
+  simp only [cancelRetryWait]
+  exact finish_ok cfg st _ (deliverAll_sameQ st b _).ok
+
+theorem cancelBatch_ok (cfg : Cfg) (st : St) (wipe : Bool) (pout : Option ProdRes) (mouts : List (Rid × MetaRes)) :
+    AccOk st (cancelBatch cfg st wipe pout mouts).1 := by
+  simp only [cancelBatch]; split
+  · exact id
+  · exact cancelLookups_ok _ _ _ _
+  · exact cancelSending_ok _ _ _ _ _ _
+  · exact cancelRetryWait_ok _ _ _ _
+
+theorem step_acc (cfg : Cfg) (st : St) (e : Ev) (h : AccInv st) : AccInv (step cfg st e).1 := by
+  cases e with
+  | send sid topic key msgs =>
+    simp only [step]
+    split
+    · exact h
+    · split
+      · exact (SameQ.ok (a := st) ⟨rfl, rfl, rfl⟩) h
+      · simp only [doSend]
+        apply checkSendBatch_ok
+        obtain ⟨h1, h2⟩ := h
+        simp only [AccInv, qMsgs, qBytes, List.map_append, List.sum_append, List.map_cons, List.map_nil,
+          List.sum_cons, List.sum_nil] at *
+        constructor <;> omega
+  | cancel sid => simp only [step]; split; exact cancelSend_ok st sid h; exact h
+  | tick => simp only [step]; split; exact sendBatch_ok cfg st h; exact h
+  | timer tid =>
+    simp only [step]; split
+    · exact timerLookups_ok cfg st _ tid h
+    · split
+      · exact (SameQ.ok (a := st) ⟨rfl, rfl, rfl⟩) h
+      · exact zombieTimer_ok st tid h
+    · exact zombieTimer_ok st tid h
+  | advance dt => exact h
+  | metaSet topic err parts => exact (SameQ.ok (a := st) ⟨rfl, rfl, rfl⟩) h
+  | metaReset topics => exact (SameQ.ok (a := st) ⟨rfl, rfl, rfl⟩) h
+  | metaWipe => exact (SameQ.ok (a := st) ⟨rfl, rfl, rfl⟩) h
+  | metaDone rid res => simp only [step]; split; exact metaDoneLookups_ok cfg st _ rid res h; exact h
+  | produceDone rid res =>
+    simp only [step]; split
+    · split
+      · exact finish_ok cfg st _ (handleSendResponse_sameQ cfg st _ res).ok h
+      · exact h
+    · exact h
+  | stop wipe pout mouts =>
+    simp only [step]; split
+    · exact h
+    · simp only [doStop]
+      have h1 := cancelBatch_ok cfg { st with stopping := true } wipe pout mouts ((SameQ.ok (a := st) ⟨rfl, rfl, rfl⟩) h)
+      split
+      · exact cancelAll_ok _ _ ((SameQ.ok (b := { (cancelBatch cfg { st with stopping := true } wipe pout mouts).1 with looper := false }) ⟨rfl, rfl, rfl⟩) h1)
+      · exact cancelAll_ok _ _ h1
+
+theorem acc_init (cfg : Cfg) : AccInv (St.init cfg) := by simp [AccInv, St.init, qMsgs, qBytes]
 
 end Afkak.Producer
